@@ -24,6 +24,11 @@ def gen_dump(rng):
     for _ in range(rng.randint(1, 10)):
         ns = rng.choice(NSIDS)
         base = rng.choice(TITLES)
+        if ns != 0 and rng.random() < 0.2:
+            # a page name that itself begins with a spelling of its own namespace (alias, English key, local name, lower case)
+            key, nsd = c10.NS_BY_ID[ns]
+            sp = rng.choice(list(nsd.get("aliases", [])) + [key, nsd["name"], nsd["name"].lower(), key.lower()])
+            base = sp + ":" + base
         title = canon_title(base, ns)
         red = None
         model = rng.choice(MODELS)
